@@ -9,7 +9,7 @@ CHECKS = {
          "Static exclusion argument: on the SSA form of every function reachable from the handlers and MakeDecision, no nondeterminism source exists (clock, global PRNG, os/runtime, goroutines/channels, unclassified externals), every generator is seeded from a request *Seed field, every map range is order-insensitive (classified P/E/S), comparators are pure, no struct is decoded by a decoder that resolves keys in map order unless case-ambiguous objects are refused first (ND-5: the one mapstructure.Decode site is dominated by the repository's ambiguity check), and nothing writes memory that outlives the request. Decides the structural necessary-and-(under the stated assumptions)-sufficient conditions of repeatability; not the byte encoding.",
          "2"),
  "C10": ("E3 may-point-to-shared write analysis (SHR-1..4) over SSA + call graph (plus E5 on factories and handlers)",
-         "Race freedom by construction: every write reachable from a handler is shown to target request-local memory (interprocedural may-point-to-shared analysis with singleton types taken from the initialisers), factories return fresh objects, decode targets are request-local, globals are init-only, no goroutines/channels/shared PRNG. Holds for every interleaving because it shows the absence of shared writes rather than sampling schedules.",
+         "Race freedom by construction: every write reachable from a handler is shown to target request-local memory (interprocedural may-point-to-shared analysis with singleton types taken from the initialisers), factories return fresh objects, decode targets are request-local, globals are init-only, no goroutines/channels/shared PRNG; and (ND-3..5) no result depends on map iteration order, so that a request has one response for the concurrent run to be equal to. Holds for every interleaving because it shows the absence of shared writes rather than sampling schedules.",
          "2"),
 }
 SHORT = {"C01": "OWN-2 (forked append)", "C05": "REC (recursion table)", "C07": "TCH (type channels), LIT (literal completeness), LEN (make/fill agreement)",
@@ -23,10 +23,11 @@ EXTRA = {
  "C16": " Plus E5-fp on the reversal (the mirror is evaluated in the reference's floating-point order - from the nearer end of the range - so that the end points are exact).",
  "C05": " Plus REC (every recursion cycle on the request path is tabled with its termination argument).",
  "C07": " Plus, without references: TCH (type channels: dynamic types produced for MethodParameters/additions vs the consumers' type assertions, per method id), LIT (literal completeness of working-state and parameter structs), LEN (make/fill agreement).",
- "C09": " Plus, without references: OWN-1 (no in-place write to memory borrowed from the request or the working state, resolved interprocedurally), OWN-2 (no forked append), SHR-1/SHR-4 (no request-path write to memory that outlives the request).",
+ "C09": " Plus, without references: OWN-1 (no in-place write to memory borrowed from the request or the working state, resolved interprocedurally), OWN-2 (no forked append), SHR-1/SHR-4 (no request-path write to memory that outlives the request); E5-fp on the inline anchoring applier (reported difference = new - old in the reference's floating-point order).",
  "C11": " Plus LIT (literal completeness of the heuristic's parameter struct in the listener).",
  "C15": " Plus LEN (make/fill agreement, the SortByWeights class of defects).",
- "C18": " Plus TCH (type channels between OnCriterionAdded and Merge of every listener).",
+ "C18": " Plus TCH (type channels between OnCriterionAdded and Merge of every listener) and E5-fp on the mixing formula (evaluated in the reference's floating-point order, so that a mixed value stays between its components).",
+ "C19": " Plus E5-fp on the inline applier (the reported difference is new - old in the reference's floating-point order).",
  "C20": " Plus PANIC-type (every request-path panic carries an error or string), REC (recursion cycles tabled), VAL-1 (the call that validates a bias's props is not control dependent on a random draw: violated in processBiases, recorded as a known finding), ND-1 (a panic in a spawned goroutine bypasses the handler's recover: no goroutines, channels or process control on the request path).",
 }
 for _p in ["C01","C03","C04","C05","C07","C08","C09","C11","C12","C13","C14","C15","C16","C17","C18","C19","C20"]:
